@@ -3,6 +3,7 @@ package sim
 import (
 	"context"
 	"fmt"
+	topoapi "github.com/onosproject/onos-api/go/onos/topo"
 	"regexp"
 	"sort"
 	"strings"
@@ -47,7 +48,7 @@ func genC13(rt *rapid.T) C13Case {
 	nm := rapid.IntRange(0, 2).Draw(rt, "nmut")
 	for i := 0; i < nm; i++ {
 		pool := []string{"op-target-unknown", "op-target-empty", "op-target-noplugin", "prefix-target-unknown", "path-target-differs", "update-interior", "update-nonmodel",
-			"key-mismatch", "key-badchars", "delete-key-badchars", "override-unknown-target", "override-known-target", "ext-malformed", "no-ops", "more-ops", "second-target", "delete-nonmodel", "delete-textual-stub", "json-root", "json-at-path"}
+			"key-mismatch", "key-name-wrong", "keys-dropped", "key-badchars", "delete-key-badchars", "override-unknown-target", "override-known-target", "target-removed", "ext-malformed", "no-ops", "more-ops", "second-target", "delete-nonmodel", "delete-textual-stub", "json-root", "json-at-path"}
 		if c.Limit > 0 {
 			pool = pool[:len(pool)-2] // how many operations a JSON value counts for is not documented
 		}
@@ -116,6 +117,18 @@ func applyC13Mutation(rt *rapid.T, s *SetSpec, m string) {
 	case "key-mismatch":
 		kv := model.Str("other")
 		s.Ops = append(s.Ops, model.Op{Kind: "update", Target: firstTarget(s), Path: relTo(s, model.Parse("/l1[id=1]/id")), Val: &kv})
+	case "key-name-wrong":
+		// a look-alike of a valid path: right list, right leaf, wrong key NAME (written validly just before, so
+		// that anything that remembers the valid path is primed)
+		ok := model.Path{{Name: "l1", Keys: map[string]string{"id": "1"}}, {Name: "v"}}
+		bad := model.Path{{Name: "l1", Keys: map[string]string{"idx": "1"}}, {Name: "v"}}
+		s.Ops = append(s.Ops, model.Op{Kind: "update", Target: firstTarget(s), Path: relTo(s, ok), Val: &v})
+		s.Ops = append(s.Ops, model.Op{Kind: "update", Target: firstTarget(s), Path: relTo(s, bad), Val: &v})
+	case "keys-dropped":
+		ok := model.Path{{Name: "l1", Keys: map[string]string{"id": "1"}}, {Name: "v"}}
+		bad := model.Path{{Name: "l1"}, {Name: "v"}}
+		s.Ops = append(s.Ops, model.Op{Kind: "update", Target: firstTarget(s), Path: relTo(s, ok), Val: &v})
+		s.Ops = append(s.Ops, model.Op{Kind: "update", Target: firstTarget(s), Path: relTo(s, bad), Val: &v})
 	case "key-badchars":
 		bad := []string{"a b", "a,b", "a+b", "a(b"}[rapid.IntRange(0, 3).Draw(rt, "badkey")]
 		p := model.Path{{Name: "l1", Keys: map[string]string{"id": bad}}, {Name: "v"}}
@@ -129,6 +142,13 @@ func applyC13Mutation(rt *rapid.T, s *SetSpec, m string) {
 		if i := pick(); i >= 0 && s.PrefixTarget == "" {
 			s.Ops[i].Target = "nosuch"
 			s.Ext = append(s.Ext, OverrideExt("nosuch", "m1", "1.0.0"))
+		}
+	case "target-removed":
+		// t2 is served once and then removed from the topology (runC13): the request must name it
+		if s.PrefixTarget == "" {
+			s.Ops = append(s.Ops, model.Op{Kind: "update", Target: "t2", Path: relTo(s, model.Parse("/a/b")), Val: &v})
+		} else {
+			s.PrefixTarget = "t2"
 		}
 	case "override-known-target":
 		s.Ext = append(s.Ext, OverrideExt("t1", "m1", "1.0.0"))
@@ -322,6 +342,32 @@ func runC13(c C13Case, x *vstat.Ctx) error {
 		ref.Change(s.Resolved())
 		z.note(i+1, s.Resolved())
 	}
+	for _, m := range c.Muts {
+		if m != "target-removed" || !known["t2"] {
+			continue
+		}
+		// serve t2 once (anything that remembers a target is primed), then remove it from the topology
+		pv := model.Uint(7)
+		prime := SetSpec{Ops: []model.Op{{Kind: "update", Target: "t2", Path: model.Parse("/mtu"), Val: &pv}}}
+		if c.Limit == 0 {
+			call, err := submitAndSettle(w, "prime", prime)
+			if err != nil {
+				return err
+			}
+			if !call.Created || call.Err != nil {
+				return vstat.Violf("priming Set %s was not accepted: %v", prime.Describe(), call.Err)
+			}
+			ref.Change(prime.Resolved())
+		}
+		if err := w.Topo.Delete(context.Background(), &topoapi.Object{ID: "t2"}); err != nil {
+			return err
+		}
+		if err := w.S.Run(); err != nil {
+			return err
+		}
+		known["t2"] = false
+		x.Logf("target t2 removed from the topology")
+	}
 	x.Logf("request (limit %d, mutations %v): %s", c.Limit, c.Muts, c.Req.Describe())
 	for _, m := range c.Muts {
 		x.Class("mut:" + m)
@@ -376,6 +422,9 @@ func runC13(c C13Case, x *vstat.Ctx) error {
 		}
 		x.Class("refused-with:" + Code(call.Err).String())
 		for _, t := range []string{"t1", "t2"} {
+			if !known[t] {
+				continue // removed from the topology: Get no longer serves it (that nothing was logged is checked above)
+			}
 			if b, ok := before[t]; ok {
 				a, _, err := w.GetProto(t, nil)
 				if err != nil {
@@ -443,6 +492,9 @@ func runC13(c C13Case, x *vstat.Ctx) error {
 		}
 	}
 	for _, t := range []string{"t1", "t2"} {
+		if !known[t] {
+			continue // removed from the topology: no longer served
+		}
 		reconcileKnown(w, x, ref, z, t, len(c.Populate)+1)
 		if err := checkGet(w, x, ref, GetSpec{Target: t}, "after the request"); err != nil {
 			return err
